@@ -234,6 +234,13 @@ class Models:
         R(r"^core::time::Duration::is_zero$", m_dur_is_zero, "Duration::is_zero")
         R(r"^core::option::Option::<core::result::Result<T, E>>::transpose$", m_transpose, "Option<Result<T,E>>::transpose: None => Ok(None), Some(Ok(x)) => Ok(Some(x)), Some(Err(e)) => Err(e)")
         R(r"^core::result::Result::<T, E>::and_then$", m_and_then, "Result::and_then: Ok(v) => f(v), Err(e) => Err(e)")
+        R(r"^core::option::Option::<T>::unwrap_or_else$", m_unwrap_or_else, "Option::unwrap_or_else: Some(x) => x, None => f()")
+        R(r"^core::slice::<impl \[T\]>::split_first$", m_split_first, "slice::split_first: None for an empty slice, else Some((&s[0], &s[1..]))")
+        R(r"as core::iter::traits::iterator::Iterator>::(find|position|any|all)$|^core::iter::traits::iterator::Iterator::(find|position|any|all)$", m_search, "Iterator::find/position/any/all over a small constant table: the predicate on each element in order")
+        R(r"^core::slice::<impl \[T\]>::contains$", m_contains, "slice::contains over a small constant table: x == element, in order")
+        R(r"^core::mem::replace$", m_mem_replace, "mem::replace stores the new value and returns the old one")
+        R(r"^alloc::vec::from_elem$", lambda ci: ("seq", (("fill_to", ci.args[1], ci.args[0]),)), "vec![x; n]: n copies of x")
+        R(r"^<alloc::vec::Vec<T, A> as core::iter::traits::collect::Extend<&'a T>>::extend$|^<alloc::vec::Vec<T, A> as core::iter::traits::collect::Extend<T>>::extend$", m_vec_extend_iter, "Vec::extend with the items of a slice iterator: extend_from_slice")
         R(r"^core::hint::must_use$", lambda ci: ci.args[0], "hint::must_use is the identity")
         R(r"^log::max_level$", lambda ci: ("loglevel",), "log::max_level(): the global maximum level (analysed at both extremes)")
         R(r"^core::cmp::PartialOrd::le$", m_le, "PartialOrd::le; Level <= max_level decided by the engine's log setting")
@@ -588,23 +595,18 @@ def m_res_comb(ci):
         okv = ("unwrap", x)
         erv = ("proj", ("proj", x, ("downcast", 1, "Err")), ("field", 0, "?"))
         d = ("discr", x)
+        f = ci.args[1]
+        # the closure runs only on the branch whose variant it maps (its side effects belong to that branch alone)
         if which == "map":
-            r = apply_closure(ci, ci.args[1], [okv])
-            if r is None:
-                return None
-            return ("fork", [([(d, 0)], ok(ev, r)), ([(d, 1)], err(ev, erv))])
-        r = apply_closure(ci, ci.args[1], [erv])
-        if r is None:
-            return None
-        return ("fork", [([(d, 0)], ok(ev, okv)), ([(d, 1)], err(ev, r))])
+            return ("fork", [([(d, 0)], lambda ci2: apply_closure(ci2, f, [okv], multi=lambda r: ok(ci2.ev, r))), ([(d, 1)], err(ev, erv))])
+        return ("fork", [([(d, 0)], ok(ev, okv)), ([(d, 1)], lambda ci2: apply_closure(ci2, f, [erv], multi=lambda r: err(ci2.ev, r)))])
+    f = ci.args[1]
     if which == "map":
         if x[3] == "Ok":
-            r = apply_closure(ci, ci.args[1], [x[4][0]])
-            return ok(ev, r) if r is not None else None
+            return apply_closure(ci, f, [x[4][0]], multi=lambda r: ok(ev, r))
         return x
     if x[3] == "Err":
-        r = apply_closure(ci, ci.args[1], [x[4][0]])
-        return err(ev, r) if r is not None else None
+        return apply_closure(ci, f, [x[4][0]], multi=lambda r: err(ev, r))
     return x
 
 
@@ -962,6 +964,130 @@ def m_collect(ci):
                 out.append(("fill_to", ln, i[2]))
         return ("seq", tuple(out))
     return ("app", "collect:" + ty, (ci.args[0],))
+
+
+def m_unwrap_or_else(ci):
+    x, f = ci.args
+    if x[0] == "adt":
+        if x[3] == "Some":
+            return x[4][0]
+        return apply_closure(ci, f, [], multi=lambda v: v)
+    d = ("discr", x)
+    return ("fork", [([(d, 1)], ("unwrap", x)), ([(d, 0)], lambda ci2: apply_closure(ci2, f, [], multi=lambda v: v))])
+
+
+def m_split_first(ci):
+    a = ci.args[0]
+    sl = ci.deref(a) if a[0] == "ref" else a
+    ln = len_term(sl)
+    from mireval import index_term
+    first = ("ref", ("val", index_term(sl, mk_int(0, "usize")), ()), False) if not (ln[0] == "int" and ln[1] == 0) else None
+    if sl[0] == "bytes":
+        rest = ("bytes", sl[1][1:])
+    elif sl[0] == "array":
+        rest = ("array", sl[1][1:])
+    else:
+        rest = ("app", "subslice", (sl, mk_int(1, "usize"), ("len", sl)))
+    both = lambda: some(ci.ev, ("tuple", (first, ("ref", ("val", rest, ()), False))))
+    if ln[0] == "int":
+        return none(ci.ev) if ln[1] == 0 else both()
+    c = ("app", "Eq", (ln, mk_int(0, "usize")))
+    kn = ci.ev.decide(ci.st, c)
+    if kn is not None:
+        return none(ci.ev) if kn else both()
+    return ("fork", [([(c, 1)], none(ci.ev)), ([(c, 0)], both())])
+
+
+def table_items(ci, it):
+    """the elements (as the iterator yields them) of an iterator over a small table whose length is known, else None"""
+    out = []
+    cur = it
+    for _ in range(40):
+        r = concrete_step(ci, cur)
+        if r is None:
+            return None
+        if r == ("end",):
+            return out
+        out.append(r[0])
+        cur = r[1]
+    return None
+
+
+def m_search(ci):
+    """find / position / any / all with a pure predicate over a table of known length: a decision chain in element order"""
+    which = ci.name.split("::")[-1]
+    it = ci.deref(ci.args[0]) if ci.args[0][0] == "ref" else ci.args[0]
+    pred = ci.args[1]
+    items = table_items(ci, it)
+    if items is None:
+        return None
+    ev = ci.ev
+    conds = []
+    for x in items:
+        arg = ("ref", ("val", x, ()), False) if which == "find" else x     # find's predicate takes &Item
+        n0 = len(ci.st.trace)
+        b = apply_closure(ci, pred, [arg])
+        if b is None or len(ci.st.trace) != n0:
+            return None         # only pure predicates: all of them are evaluated up front
+        conds.append(b)
+    branches = []
+    prefix = []
+    for k, (x, b) in enumerate(zip(items, conds)):
+        hit = prefix + [(b, 0 if which == "all" else 1)]
+        if which == "find":
+            val = some(ev, x)
+        elif which == "position":
+            val = some(ev, mk_int(k, "usize"))
+        else:
+            val = FALSE if which == "all" else TRUE
+        branches.append((hit, val))
+        prefix = prefix + [(b, 1 if which == "all" else 0)]
+    end = none(ev) if which in ("find", "position") else (TRUE if which == "all" else FALSE)
+    branches.append((prefix, end))
+    if ci.args[0][0] == "ref" and which in ("find", "position", "any", "all"):
+        pass        # (the iterator is consumed up to the hit; no caller here reuses it)
+    return ("fork", branches)
+
+
+def m_contains(ci):
+    sl = ci.deref(ci.args[0]) if ci.args[0][0] == "ref" else ci.args[0]
+    x = ci.deref(ci.args[1]) if ci.args[1][0] == "ref" else ci.args[1]
+    if sl[0] == "array" and len(sl[1]) <= 40:
+        elems = list(sl[1])
+    elif sl[0] == "bytes" and len(sl[1]) <= 40:
+        elems = [mk_int(b, "u8") for b in sl[1]]
+    else:
+        return None
+    ev = ci.ev
+    branches = []
+    prefix = []
+    for e in elems:
+        b = struct_eq(ci.ev, ci.st, x, e)
+        branches.append((prefix + [(b, 1)], TRUE))
+        prefix = prefix + [(b, 0)]
+    branches.append((prefix, FALSE))
+    return ("fork", branches)
+
+
+def m_mem_replace(ci):
+    a, v = ci.args
+    if a[0] != "ref":
+        return None
+    old = ci.ev.load(ci.st, a[1])
+    ci.ev.store(ci.st, a[1], v, ci.w)
+    return old
+
+
+def m_vec_extend_iter(ci):
+    it = ci.args[1]
+    if it[0] == "ref":
+        it = ("iter", "slice", ci.ev.load(ci.st, it[1]))        # Extend<&T> for &[T] / &Vec<T>
+    while it[0] == "iter" and it[1] in ("copied", "cloned"):
+        it = it[2]
+    if it[0] == "iter" and it[1] == "slice":
+        sl = it[2]
+        return vec_update(ci, lambda s: ("seq", s[1] + (("splice", sl),)))
+    return None
 
 
 def m_find_map(ci):
